@@ -44,8 +44,9 @@ Section ProviderProofs.
   Variable qcap : nat.
   Variable dresp : istate -> istate.
   Variable rresp : istate.
-  Notation pstep := (pstep qcap dresp rresp).
-  Notation prun := (prun qcap dresp rresp).
+  (* a full queue refuses: all provider results are about the code in which queue.Full is not swallowed *)
+  Notation pstep := (pstep qcap dresp rresp false).
+  Notation prun := (prun qcap dresp rresp false).
 
   Lemma prun_app s a b :
     prun s (a ++ b) =
@@ -953,3 +954,13 @@ Section ConsumerMerge.
     apply cons_complete; auto. now rewrite Ho1, Ho2.
   Qed.
 End ConsumerMerge.
+
+Lemma tx_legal_wait sts :
+  tx_legal Wait sts = true -> exists f, final f = true /\ sts = [Wait; Start; f].
+Proof.
+  destruct sts as [|a [|b [|c [|d l]]]]; simpl; try discriminate.
+  - destruct a; discriminate.
+  - destruct a, b; discriminate.
+  - destruct a; try discriminate; destruct b; try discriminate. intros H. exists c. auto.
+  - destruct a; try discriminate; destruct b; discriminate.
+Qed.
